@@ -71,7 +71,8 @@ def run_case(ctx, rng, ci):
     source = rng.choice(["cdf", "cdf", "ensemble", "mixed"])
     F = rng.choice([1, 2])
     thresholds = sorted(rng.sample([0.0, 2.0, 5.0, 10.0], rng.randint(2, 3)))
-    quantiles = sorted(rng.sample([0.0, 0.25, 0.5, 0.75, 1.0], rng.randint(2, 3)))
+    # (levels on the same side of the median occur as pairs too: 0.6-0.9, 0.1-0.3)
+    quantiles = sorted(rng.sample([0.0, 0.1, 0.25, 0.3, 0.5, 0.6, 0.75, 0.9, 1.0], rng.randint(2, 3)))
     pclass = rng.choice(["random", "extremes", "edges", "single-per-bin"])
     ens = source != "cdf" or rng.random() < 0.3
     # one-decimal member values that are not exact in single precision, thresholds equal to members: text values are
